@@ -1,5 +1,6 @@
 import Hifi.Model.Proto
 import Hifi.Model.Calendar
+import Hifi.Model.ViewsFloat
 import Hifi.Spec.Duration
 import Hifi.Spec.Calendar
 /-
@@ -389,19 +390,29 @@ def handle (op : String) (args : List String) (impl : Impl) : Option Ans :=
       | .ok [hex] => verdict (judgeDoy e ts hex)
       | .ok _ => "FAIL:decode"
       | .other w => "FAIL:" ++ w
+    -- SoftF64 evaluation (Model/ViewsFloat.lean `dayOfYear`, the expression the C20 theorems are about)
+    -- must reproduce the hardware-Float evaluation bit for bit
+    let cross : Bool := match Cal.durationInYear e ts with
+      | .ok d => F64.toBits (Hifi.ViewsF.dayOfYear d) == (dayOfYearF d).toBits.toNat
+      | _ => true
     pure { model := (match Cal.durationInYear e ts with
              | .ok d => "ok " ++ hex16 (dayOfYearF d).toBits.toNat | .err => "err" | .panic => "panic"),
-           spec := sp, branch := "doy:" ++ signTag e ts }
+           spec := if sp == "ok" && !cross then "FAIL:softf64_equals_hw" else sp,
+           branch := "doy:" ++ signTag e ts ++ (if cross then ":softf64=hw" else ":softf64!=hw") }
   | "ydoy", [e] => do
     let (e, ts) ← parseEpoch? e
     let sp := match impl, specDate e ts with
       | .ok [y, hex], some (dt, _) => verdict ([("year", y.toInt? == some dt.y)] ++ judgeDoy e ts hex)
       | .ok _, _ => "FAIL:decode"
       | .other w, _ => "FAIL:" ++ w
+    let cross : Bool := match Cal.durationInYear e ts with
+      | .ok d => F64.toBits (Hifi.ViewsF.dayOfYear d) == (dayOfYearF d).toBits.toNat
+      | _ => true
     pure { model := (match Cal.year e ts, Cal.durationInYear e ts with
              | .ok y, .ok d => "ok " ++ toString y ++ " " ++ hex16 (dayOfYearF d).toBits.toNat
              | .panic, _ => "panic" | _, .panic => "panic" | _, _ => "err"),
-           spec := sp, branch := "ydoy:" ++ signTag e ts }
+           spec := if sp == "ok" && !cross then "FAIL:softf64_equals_hw" else sp,
+           branch := "ydoy:" ++ signTag e ts ++ (if cross then ":softf64=hw" else ":softf64!=hw") }
   | _, _ => none
 
 end Hifi.Drive.Calendar
